@@ -63,26 +63,47 @@ def visible_codes(critical_only=False):
     import importlib
 
     overlay, transform, probe, selector = (importlib.import_module("ptera." + m) for m in ("overlay", "transform", "probe", "selector"))
-    crit = [
-        overlay._tooler, overlay._untooler,
-        transform.StackedTransforms.push, transform.StackedTransforms.pop, transform.StackedTransforms.get,
-        transform.SyncedStackedTransforms.push, transform.SyncedStackedTransforms.pop,
-        transform.SyncedStackedTransforms._apply, transform.SyncedStackedTransforms.__init__,
-        transform.TransformSet.transform_for, transform.TransformSet._register,
-    ]
-    rest = [
-        overlay.autotool, overlay.HandlerCollection.proceed, overlay.proceed.__enter__, overlay.proceed.__exit__,
-        overlay.BaseOverlay.__enter__, overlay.BaseOverlay.__exit__,
-        probe.Probe._enter, probe.Probe._exit, probe.Probe._install_tooling, probe.Probe._uninstall_tooling,
-        transform.TransformSet.__init__, transform.TransformSet._set_base, transform.transform,
-        selector.InternedMC.__call__,
-    ]
+    def pick(mod, *paths):
+        """Functions named by dotted paths inside mod; names that a refactoring removed are skipped."""
+        out = []
+        for path in paths:
+            obj = mod
+            for part in path.split("."):
+                obj = getattr(obj, part, None)
+                if obj is None:
+                    break
+            if obj is not None and hasattr(obj, "__code__"):
+                out.append(obj)
+        return out
+
+    crit = pick(overlay, "_tooler", "_untooler") + pick(
+        transform,
+        "StackedTransforms.push", "StackedTransforms.pop", "StackedTransforms.get",
+        "SyncedStackedTransforms.push", "SyncedStackedTransforms.pop", "SyncedStackedTransforms._apply",
+        "SyncedStackedTransforms.__init__", "TransformSet.transform_for", "TransformSet._register",
+    )
+    rest = pick(
+        overlay, "autotool", "HandlerCollection.proceed", "proceed.__enter__", "proceed.__exit__",
+        "proceed.suspend", "proceed.resume", "BaseOverlay.__enter__", "BaseOverlay.__exit__",
+    ) + pick(
+        probe, "Probe._enter", "Probe._exit", "Probe._install_tooling", "Probe._uninstall_tooling", "Probe.__exit__",
+    ) + pick(transform, "TransformSet.__init__", "TransformSet._set_base", "transform") + pick(selector, "InternedMC.__call__")
     try:
         from codefind import code_registry
 
         rest.append(type(code_registry).update_cache_entry)
     except Exception:
         pass
+    if len(crit) < 5:
+        # the bookkeeping code was reorganised: fall back to every function of the three modules
+        import types
+
+        for mod in (overlay, transform, probe):
+            for obj in vars(mod).values():
+                if isinstance(obj, types.FunctionType) and obj.__module__ == mod.__name__:
+                    crit.append(obj)
+                elif isinstance(obj, type) and obj.__module__ == mod.__name__:
+                    crit += [m for m in vars(obj).values() if isinstance(m, types.FunctionType)]
     fns = crit if critical_only else crit + rest
     return {getattr(fn, "__code__") for fn in fns}, {fn.__code__ for fn in crit}
 
@@ -226,9 +247,10 @@ def execute(scenario, prefix, critical_only):
         if extra:
             probs.append(f"module globals polluted: {extra!r}")
     world.reset_context()
-    from ptera import probe as pm
+    from pv.core import introspect as I
 
-    pm.global_probes.clear()
+    if I.global_probes() is not None:
+        I.global_probes().clear()
     return x, probs
 
 
